@@ -65,7 +65,7 @@ def main():
     if args and args[0].startswith("--round="):
         rnd = int(args[0].split("=")[1])
         args = args[1:]
-    offset = {3: 0, 5: 4, 9: 8}.get(rnd, 4 * ((rnd - 3) // 2))
+    offset = {3: 0, 5: 4, 9: 8, 11: 11}.get(rnd, 4 * ((rnd - 3) // 2))
     only = args
     home = tempfile.mkdtemp(prefix="isoq_home_", dir="/tmp")
     base = None
